@@ -287,6 +287,8 @@ func init() {
 		c.rulesC20deep()
 		c.rulesR3ask()
 		c.rulesR3bounds()
+		c.rulesR4bounds2()
+		c.rulesR4fresh()
 		c.rulesR4scanall()
 		c.rulesR4qdone()
 		c.rulesR4clone()
